@@ -13,7 +13,9 @@ import (
 func init() { register("c02", "C02", "c02", suiteC02) }
 
 var c02ValuePool = []float64{0, math.Copysign(0, -1), 1, -1, 3.5, math.Inf(1), math.Inf(-1), math.NaN(), math.Float64frombits(0x7ff8000000000123),
-	math.Float64frombits(0xfff0000000000001), 5e-324, -5e-324, math.MaxFloat64, 1e-310}
+	math.Float64frombits(0xfff0000000000001), 5e-324, -5e-324, math.MaxFloat64, 1e-310,
+	// bit patterns an implementation might reserve as a marker: all ones (a negative NaN), all ones but the sign, the sign alone
+	math.Float64frombits(0xffffffffffffffff), math.Float64frombits(0x7fffffffffffffff), math.Float64frombits(0x8000000000000001), math.Float64frombits(0xfff8000000000000)}
 
 type c02Scenario struct {
 	name     string
